@@ -148,8 +148,12 @@ func handleZADD(params internal.HandlerFuncParams) ([]byte, error) {
 		if err != nil {
 			return nil, err
 		}
-		// If INCR option is provided, return the new score value
+		// If INCR option is provided, return the new score value,
+		// or nil when NX, XX, GT or LT prevented the increment.
 		if incr != nil {
+			if count == 0 {
+				return []byte("$-1\r\n"), nil
+			}
 			m := set.Get(members[0].Value)
 			return []byte(fmt.Sprintf("+%f\r\n", m.Score)), nil
 		}
@@ -443,7 +447,7 @@ func handleZINCRBY(params internal.HandlerFuncParams) ([]byte, error) {
 	if _, err = set.AddOrUpdate(
 		[]MemberParam{
 			{Value: member, Score: increment}},
-		"xx",
+		nil,
 		nil,
 		nil,
 		"incr"); err != nil {
